@@ -513,3 +513,30 @@ M('c17-cbdata-alloc', 'C17', 'src/extensions/qaconf.c',
 M('c20-scan-break', 'C20', 'src/extensions/qconfig.c',
   "            if (openedbrakets > 0)\n                continue;  // found internal ${", "            if (openedbrakets > 0)\n                break;  // found internal ${",
   'B5', '_parsestr', 'scan abandoned at a nested reference')
+
+# ---- C16 bit laws -------------------------------------------------------------------------------
+M('c16-b64enc-field', 'C16', 'src/utilities/qencode.c',
+  "        *pszB64Pt++ = B64CHARTBL[(((szIn[0] & 0x03) << 4)\n                | ((szIn[1] & 0xF0) >> 4))];",
+  "        *pszB64Pt++ = B64CHARTBL[(((szIn[0] & 0x03) << 4)\n                | ((szIn[1] & 0xE0) >> 4))];",
+  'TB10', 'qbase64_encode', 'one bit of the second sextet masked away')
+M('c16-b64dec-shift', 'C16', 'src/utilities/qencode.c',
+  "            *pBinPt++ = ((cLastByte << 4) | (cByte >> 2));", "            *pBinPt++ = ((cLastByte << 4) | (cByte >> 3));",
+  'TB11', 'qbase64_decode', 'wrong shift in the second byte of a quartet')
+M('c16-b64dec-state', 'C16', 'src/utilities/qencode.c',
+  "            *pBinPt++ = ((cLastByte << 6) | cByte);\n            nIdxOfFour = 0;", "            *pBinPt++ = ((cLastByte << 6) | cByte);\n            nIdxOfFour = 1;",
+  'TB11', 'qbase64_decode', 'quartet state not reset')
+M('c16-hexenc-order', 'C16', 'src/utilities/qencode.c',
+  "        *pHexPt++ = HEXCHARTBL[(pSrc[i] >> 4)];\n        *pHexPt++ = HEXCHARTBL[(pSrc[i] & 0x0F)];",
+  "        *pHexPt++ = HEXCHARTBL[(pSrc[i] & 0x0F)];\n        *pHexPt++ = HEXCHARTBL[(pSrc[i] >> 4)];",
+  'TB12', 'qhex_encode', 'low digit first')
+M('c16-hexdec-shift', 'C16', 'src/utilities/qencode.c',
+  "        *pBinPt++ = (HEXMAPTBL[(unsigned char) (*pEncPt)] << 4)", "        *pBinPt++ = (HEXMAPTBL[(unsigned char) (*pEncPt)] << 3)",
+  'TB13', 'qhex_decode', 'high digit weighted 8')
+M('c16-pct-digit', 'C16', 'src/utilities/qencode.c',
+  "                    (cLower4 < 0x0A) ?\n                            (cLower4 + '0') : ((cLower4 - 0x0A) + 'a');",
+  "                    (cLower4 <= 0x0A) ?\n                            (cLower4 + '0') : ((cLower4 - 0x0A) + 'a');",
+  'TB14', 'qurl_encode', 'nibble 10 written as \':\'')
+M('c16-x2c-case', 'C16', 'src/internal/qinternal.c',
+  "    digit += (hex_low >= 'A' ? ((hex_low & 0xdf) - 'A') + 10 : hex_low - '0');",
+  "    digit += (hex_low >= 'A' ? (hex_low - 'A') + 10 : hex_low - '0');",
+  'TB14', '_q_x2c', 'lower-case low digit not folded')
